@@ -199,6 +199,7 @@ func (s *procScan) collectSM() {
 	s.sm = map[*types.TypeName]bool{}
 	s.ext = map[string][]string{}
 	var roots []*types.Named
+	seenRoot := map[*types.TypeName]bool{}
 	for _, p := range s.c.all {
 		for _, file := range p.Syntax {
 			fname := p.Fset.Position(file.Pos()).Filename
@@ -224,24 +225,314 @@ func (s *procScan) collectSM() {
 				if !has {
 					continue
 				}
-				if n := hooksRecvNamed(obj); n != nil {
+				if n := hooksRecvNamed(obj); n != nil && !seenRoot[n.Obj()] {
 					if _, isStruct := n.Underlying().(*types.Struct); isStruct {
+						seenRoot[n.Obj()] = true
 						roots = append(roots, n)
 					}
 				}
 			}
 		}
 	}
+	// a candidate whose values live only in local variables, parameters and results (no field, package
+	// variable or named type of the repository holds one, none is ever converted to an interface,
+	// handed to a function outside the repository, stored through a selector / index, put in a
+	// literal or sent) dies with the call that made it: not process state.  Reported as a row of
+	// its own so that Coq holds the closed list.
+	held := s.heldTypes()
+	esc := s.escapingTypes(seenRoot)
+	var kept []*types.Named
+	for _, n := range roots {
+		if len(held[n.Obj()]) == 0 && len(esc[n.Obj()]) == 0 {
+			s.rows = append(s.rows, maprangeAmbient{file: "<types>", fn: maprangeTypeName(n), kind: "procstate-local",
+				what: "values only in local variables, parameters and results: no field, package variable, interface or external call holds one"})
+			continue
+		}
+		kept = append(kept, n)
+	}
 	if p := s.c.pkgs[hooksModule+"/app"]; p != nil {
 		if o, ok := p.Types.Scope().Lookup("App").(*types.TypeName); ok {
 			if n, ok := o.Type().(*types.Named); ok {
-				roots = append(roots, n)
+				kept = append(kept, n)
 			}
 		}
 	}
-	for _, n := range roots {
+	for _, n := range kept {
 		s.addClosure(n, maprangeTypeName(n), map[types.Type]bool{})
 	}
+}
+
+// typeMentions: the repository named types a type expression holds without crossing another named type
+func maprangeMentions(t types.Type, out map[*types.TypeName]bool, seen map[types.Type]bool) {
+	if seen[t] {
+		return
+	}
+	seen[t] = true
+	switch x := t.(type) {
+	case *types.Pointer:
+		maprangeMentions(x.Elem(), out, seen)
+	case *types.Slice:
+		maprangeMentions(x.Elem(), out, seen)
+	case *types.Array:
+		maprangeMentions(x.Elem(), out, seen)
+	case *types.Map:
+		maprangeMentions(x.Key(), out, seen)
+		maprangeMentions(x.Elem(), out, seen)
+	case *types.Chan:
+		maprangeMentions(x.Elem(), out, seen)
+	case *types.Struct:
+		for i := 0; i < x.NumFields(); i++ {
+			maprangeMentions(x.Field(i).Type(), out, seen)
+		}
+	case *types.Signature:
+		// a function value: its closure may hold anything; not followed
+	case *types.Named:
+		if hooksIsRepo(x.Obj()) {
+			out[x.Obj()] = true
+		}
+	}
+}
+
+// heldTypes: for every repository named type, who holds a value of it: fields of repository struct
+// types, underlying types of repository named types, package-level variables
+func (s *procScan) heldTypes() map[*types.TypeName][]string {
+	held := map[*types.TypeName][]string{}
+	for _, p := range s.c.all {
+		scope := p.Types.Scope()
+		for _, name := range scope.Names() {
+			switch o := scope.Lookup(name).(type) {
+			case *types.TypeName:
+				n, ok := o.Type().(*types.Named)
+				if !ok {
+					continue
+				}
+				m := map[*types.TypeName]bool{}
+				maprangeMentions(n.Underlying(), m, map[types.Type]bool{})
+				for t := range m {
+					if t != o {
+						held[t] = append(held[t], "type "+maprangeTypeName(n))
+					}
+				}
+			case *types.Var:
+				m := map[*types.TypeName]bool{}
+				maprangeMentions(o.Type(), m, map[types.Type]bool{})
+				for t := range m {
+					held[t] = append(held[t], "var "+strings.TrimPrefix(p.PkgPath, hooksModule+"/")+"."+o.Name())
+				}
+			}
+		}
+	}
+	return held
+}
+
+// escapingTypes: for the candidate types, the places where a value (or pointer) leaves the local
+// variables: converted to an interface, handed to a function outside the repository or to a builtin,
+// stored through a selector / index / dereference or into a package variable, put in a composite literal, sent on a
+// channel, or a method value taken
+func (s *procScan) escapingTypes(cands map[*types.TypeName]bool) map[*types.TypeName][]string {
+	esc := map[*types.TypeName][]string{}
+	isCand := func(t types.Type) *types.TypeName {
+		if t == nil {
+			return nil
+		}
+		if n := maprangeNamed(t); n != nil && cands[n.Obj()] {
+			if _, ok := t.Underlying().(*types.Interface); !ok {
+				return n.Obj()
+			}
+		}
+		return nil
+	}
+	for _, p := range s.c.all {
+		info := p.TypesInfo
+		for _, file := range p.Syntax {
+			fname := p.Fset.Position(file.Pos()).Filename
+			if hooksIsGenerated(fname) {
+				continue
+			}
+			var sigs []*types.Signature
+			var w maprangeWalker
+			// signatures of the enclosing functions, innermost last
+			var sigAt = map[ast.Node]*types.Signature{}
+			ast.Inspect(file, func(n ast.Node) bool {
+				switch x := n.(type) {
+				case *ast.FuncDecl:
+					if o, ok := info.Defs[x.Name].(*types.Func); ok {
+						sigAt[x] = o.Type().(*types.Signature)
+					}
+				case *ast.FuncLit:
+					if sg, ok := info.TypeOf(x).(*types.Signature); ok {
+						sigAt[x] = sg
+					}
+				}
+				return true
+			})
+			_ = sigs
+			w.walk(file, func(n ast.Node, parents []ast.Node) {
+				e, ok := n.(ast.Expr)
+				if !ok || len(parents) == 0 {
+					return
+				}
+				tv, ok := info.Types[e]
+				if !ok || tv.IsType() {
+					return
+				}
+				cand := isCand(tv.Type)
+				if cand == nil {
+					return
+				}
+				note := func(why string) {
+					pos := p.Fset.Position(e.Pos())
+					esc[cand] = append(esc[cand], fmt.Sprintf("%s at %s:%d", why, s.c.rel(pos.Filename), pos.Line))
+				}
+				if id, ok := e.(*ast.Ident); ok {
+					// a variable used inside a function literal that does not declare it: captured by a closure,
+					// which may outlive the call
+					if o := info.Uses[id]; o != nil {
+						for k := len(parents) - 1; k >= 0; k-- {
+							if fl, ok := parents[k].(*ast.FuncLit); ok {
+								if o.Pos() < fl.Pos() || o.Pos() > fl.End() {
+									note("captured by a function literal")
+								}
+								break
+							}
+						}
+					}
+				}
+				i := len(parents) - 1
+				for i > 0 {
+					if _, ok := parents[i].(*ast.ParenExpr); ok {
+						i--
+						continue
+					}
+					break
+				}
+				switch par := parents[i].(type) {
+				case *ast.CallExpr:
+					if ast.Unparen(par.Fun) == e {
+						return
+					}
+					if ftv, ok := info.Types[par.Fun]; ok && ftv.IsType() {
+						if types.IsInterface(ftv.Type) {
+							note("converted to an interface")
+						}
+						return
+					}
+					fn, bi := hooksCallee(info, par)
+					if bi != nil {
+						switch bi.Name() {
+						case "len", "cap", "new", "panic", "print", "println":
+							if bi.Name() == "panic" {
+								note("panic value")
+							}
+						default:
+							note("argument of builtin " + bi.Name())
+						}
+						return
+					}
+					if fn != nil && !hooksIsRepo(fn) {
+						note("argument of " + fn.FullName())
+						return
+					}
+					sg, _ := info.TypeOf(par.Fun).(*types.Signature)
+					if sg == nil {
+						note("argument of an unresolved call")
+						return
+					}
+					idx := -1
+					for k, a := range par.Args {
+						if ast.Unparen(a) == e {
+							idx = k
+						}
+					}
+					if idx < 0 {
+						return
+					}
+					var pt types.Type
+					np := sg.Params().Len()
+					if sg.Variadic() && idx >= np-1 {
+						pt = sg.Params().At(np - 1).Type()
+						if sl, ok := pt.(*types.Slice); ok && !par.Ellipsis.IsValid() {
+							pt = sl.Elem()
+						}
+					} else if idx < np {
+						pt = sg.Params().At(idx).Type()
+					}
+					if pt == nil || types.IsInterface(pt) {
+						note("argument converted to an interface")
+					}
+				case *ast.AssignStmt:
+					for k, r := range par.Rhs {
+						if ast.Unparen(r) != e || len(par.Lhs) != len(par.Rhs) {
+							continue
+						}
+						l := ast.Unparen(par.Lhs[k])
+						if lt := info.TypeOf(l); lt != nil && types.IsInterface(lt) {
+							note("assigned to an interface")
+							continue
+						}
+						id, isId := l.(*ast.Ident)
+						if !isId {
+							note("stored through a selector / index")
+							continue
+						}
+						o := info.Defs[id]
+						if o == nil {
+							o = info.Uses[id]
+						}
+						if v, ok := o.(*types.Var); ok && v.Pkg() != nil && v.Parent() == v.Pkg().Scope() {
+							note("stored in a package variable")
+						}
+					}
+				case *ast.ValueSpec:
+					if par.Type != nil {
+						if lt := info.TypeOf(par.Type); lt != nil && types.IsInterface(lt) {
+							note("assigned to an interface")
+						}
+					}
+				case *ast.ReturnStmt:
+					// innermost enclosing function
+					var sg *types.Signature
+					for k := i - 1; k >= 0 && sg == nil; k-- {
+						sg = sigAt[parents[k]]
+					}
+					idx := -1
+					for k, r := range par.Results {
+						if ast.Unparen(r) == e {
+							idx = k
+						}
+					}
+					if sg == nil || idx < 0 || idx >= sg.Results().Len() || types.IsInterface(sg.Results().At(idx).Type()) {
+						note("returned as an interface")
+					}
+				case *ast.CompositeLit:
+					if par.Type != e {
+						note("stored in a literal")
+					}
+				case *ast.KeyValueExpr:
+					note("stored in a literal")
+				case *ast.SendStmt:
+					if par.Value == e {
+						note("sent on a channel")
+					}
+				case *ast.SelectorExpr:
+					if sel, ok := info.Selections[par]; ok && sel.Kind() == types.MethodVal {
+						called := false
+						if i > 0 {
+							if call, ok := parents[i-1].(*ast.CallExpr); ok && ast.Unparen(call.Fun) == par {
+								called = true
+							}
+						}
+						if !called {
+							note("method value")
+						}
+					}
+				case *ast.TypeAssertExpr, *ast.GoStmt, *ast.DeferStmt:
+					note(fmt.Sprintf("%T", par))
+				}
+			})
+		}
+	}
+	return esc
 }
 
 // carrying: the value can reach memory shared with other holders of the same field value
@@ -431,9 +722,17 @@ func (s *procScan) scanFunc(f *procFn) {
 				// &pkgVar / &k.field of carrying kind: an alias
 				if what, root := s.lhsTarget(f, x.X); what != "" && !s.exemptRoot(f, root) {
 					if tv, ok := info.Types[x.X]; ok && (maprangeCarrying(tv.Type) || strings.HasPrefix(what, "package variable")) {
-						if _, isComposite := ast.Unparen(x.X).(*ast.CompositeLit); !isComposite {
-							s.add(f, x, "procstate-unrecognised", "address taken: "+what)
+						if len(parents) > 0 {
+							if call, ok := parents[len(parents)-1].(*ast.CallExpr); ok {
+								if fn, _ := hooksCallee(info, call); fn != nil && fn.Pkg() != nil &&
+									fn.Pkg().Path() == "github.com/cosmos/cosmos-sdk/types/msgservice" && fn.Name() == "RegisterMsgServiceDesc" {
+									// the generated gRPC service descriptor handed to the SDK's registration (reads the method list)
+									s.add(f, x, "procstate", "msgservice.RegisterMsgServiceDesc of the address of a package variable")
+									return
+								}
+							}
 						}
+						s.add(f, x, "procstate-unrecognised", "address taken: "+what)
 					}
 				}
 			}
@@ -659,6 +958,13 @@ func (s *procScan) aliasUse(f *procFn, e ast.Expr, parents []ast.Node) {
 				}
 				// a method of a named map / slice type of the repository: its body is scanned by type
 				if fn, ok := sel.Obj().(*types.Func); ok && hooksIsRepo(fn) {
+					return
+				}
+				if fn, ok := sel.Obj().(*types.Func); ok {
+					if root := maprangeRootIdent(e); root != nil && s.exemptRoot(f, root) {
+						return
+					}
+					s.add(f, e, "procstate", "external method "+maprangeTypeName(maprangeDeref(t))+"."+fn.Name()+" on "+what)
 					return
 				}
 				unrec("method of an external type")
